@@ -211,7 +211,8 @@ def check(prop: str, tier: str, seed: int, replay: str | None) -> int:
         inconclusive += broken
     if replay_case is None:
         for name, minimum in sorted(require.items()):
-            have = counters.get(name, 0)
+            # '|name|' = number of distinct members of the observed set `name`, united over the workers
+            have = len(sets.get(name[1:-1], ())) if name.startswith('|') and name.endswith('|') else counters.get(name, 0)
             if have < minimum:
                 inconclusive.append(f'monitor counter {name}={have} < required {minimum}')
     if rc == 0 and inconclusive:
